@@ -396,6 +396,7 @@ type LoopInvClient interface {
 
 type Exec struct {
 	StrictConv     bool // integer conversions that may change the value yield opaque terms
+	UniqueMake     bool // make([]T, n) yields a distinct term per site instead of an empty abstract list
 	HavocSlicePhis bool // loop-carried slices are unknown per iteration (not accumulated lists)
 	P              *Program
 	C              Client
